@@ -126,6 +126,8 @@ def ext(name, ty, cls, make, proj, **kw):
 
 
 # ---- record layer etc.
+raw("RecordHeader2", lambda v: M.RecordHeader2().create(v[0], v[1], bool(v[2])), M.RecordHeader2,
+    lambda o: [o.length, o.padding, 1 if o.securityEscape else 0])
 raw("RecordHeader3", lambda v: M.RecordHeader3().create((v[1], v[2]), v[0], v[3]), M.RecordHeader3,
     lambda h: [h.type, h.version[0], h.version[1], h.length])
 raw("Alert", lambda v: M.Alert().create(v[1], v[0]), M.Alert, lambda a: [a.level, a.description])
